@@ -12,6 +12,9 @@ pub fn run(ctx: &mut Ctx) {
     drive(ctx, Prop::C08, "hist-near-8192", n, Mix { error_sixteenths: 0, max_steps: 5, big_start: false, near_limit: 8192, want: Prop::C08 });
     let n = ctx.scaled(if ctx.tier == "thorough" { 4_000 } else { 160 });
     drive(ctx, Prop::C08, "hist-above-65535", n, Mix { error_sixteenths: 0, max_steps: 4, big_start: false, near_limit: 70000, want: Prop::C08 });
+    let n = ctx.scaled(if ctx.tier == "thorough" { 2_000 } else { 96 });
+    drive(ctx, Prop::C08, "hist-decompresses-above-65535", n, Mix { error_sixteenths: 0, max_steps: 4, big_start: false, near_limit: 70001, want: Prop::C08 });
     let n = ctx.scaled(if ctx.tier == "thorough" { 400_000 } else { 40_000 });
     drive_header_alias(ctx, Prop::C08, n);
+    drive_rdata_alias(ctx, Prop::C08, ctx.scaled(2_000));
 }
